@@ -2423,11 +2423,18 @@ fn gen_glm_data(rng: &mut Rng, n: usize, p: usize, mode: u32, shrink: f64, power
     }
     let z = latent(rng, &f, 1, 1.0);
     let centre = *pick(rng, &[0.0, 1.0, 2.0]);
+    // the log link is scale free in the targets: now and then they are tiny or large as a whole
+    // (continuous distributions only; the f32 range is kept narrower)
+    let tscale = if lk == Lk::Log && power >= 1.5 && rng.gen_range(0..3) == 0 {
+        if fl == Fl::F64 { *pick(rng, &[1e-6, 1e-7, 1e-8, 1e-8, 1e3]) } else { *pick(rng, &[1e-3, 1e2]) }
+    } else {
+        1.0
+    };
     let mut y = Vec::with_capacity(n);
     for i in 0..n {
         let zi = z[[i, 0]];
         let mu = match lk {
-            Lk::Log => (0.5 * zi + centre).exp(),
+            Lk::Log => (0.5 * zi + centre).exp() * tscale,
             Lk::Identity => {
                 if power == 0.0 {
                     3.0 * zi + centre
